@@ -330,6 +330,14 @@ func ruleMergeShape(c *Ctx) {
 					bad = "the return at " + b.posOf(r) + " is reached without entering the loop over the patch's members: the members are not merged one by one on that path (objects on both sides are replaced instead of merged, deletions are taken over or lost as a block)"
 				} else if ml.body[r.Block()] {
 					bad = "the return at " + b.posOf(r) + " leaves the loop over the patch's members before they are used up"
+				} else {
+					// a return statement inside the loop is a block of its own that cannot reach the
+					// back edge; it is entered from the body, not from the header's exit
+					for bb := range ml.body {
+						if bb != ml.header && bb.Dominates(r.Block()) {
+							bad = "the return at " + b.posOf(r) + " is reached from inside the loop over the patch's members (through " + b.posOf(lastInstr(bb)) + "): the members that follow are never merged"
+						}
+					}
 				}
 			}
 			add(key, b.rel(fn.Pos()), bad == "", "the function returns only where the range over the patch's members is exhausted", bad)
